@@ -228,6 +228,8 @@ def write_evidence(prop_id, ev):
 
 def load_prop(prop_id):
     mod = importlib.import_module("harness.props.%s" % prop_id.lower())
+    if hasattr(mod, "MODULE"):
+        return mod.MODULE
     if hasattr(mod, "PARTS"):
         return Parts([importlib.import_module(n) if isinstance(n, str) else n for n in mod.PARTS])
     return mod
@@ -303,7 +305,8 @@ def evaluate(mod, cases):
     fails = []
     for i, c in enumerate(cases):
         io = mod.impl_view(c, impl[i]) if hasattr(mod, "impl_view") else impl[i]
-        if io != model[i]:
+        same = mod.views_equal(c, model[i], io) if hasattr(mod, "views_equal") else (io == model[i])
+        if not same:
             mism.append(i)
         for f in mod.oracle(c, impl[i]):
             fails.append((i, f))
@@ -407,6 +410,12 @@ def run_check(prop_id, tier, seed, replay=None):
                     "forbidden_constructs": hits, "leanchecker": checker_note}
             if mism:
                 i = mism[0]
+                if hasattr(mod, "first_diff"):
+                    try:
+                        payload["first_difference"] = mod.first_diff(
+                            cases[i], model[i], mod.impl_view(cases[i], impl[i]) if hasattr(mod, "impl_view") else impl[i])
+                    except Exception:
+                        pass
                 payload["broken_correspondence"] = {
                     "stream": "%s model vs implementation" % prop_id,
                     "theorems_no_longer_tied_to_the_code": sum((theorems_in(f) for f in mod.LEAN_PROPS), []),
